@@ -143,9 +143,11 @@ _H_VERDICT = {
         bounds="n=m=2", oracle="six info fields and x,s,z,tau,kappa restored bit-for-bit"),
     "c01_unscale": dict(timeout=900, unit="DefaultVariables::unscale (+ DefaultProblemData::new to build the data object)", inst="GF(13) (exact field; all values)",
         bounds="n=m=2, arbitrary d,dinv,e,einv,c,tau,kappa in the field", oracle="x=(x*d)/tau, z=(z*e)/(c tau), s=(s*einv)/tau; kappa instead of tau iff infeasible (cross-multiplied)"),
-    "c01_scale_invariance_m1": dict(nofloat=True, stubs=True, timeout=3000, mem_gb=28, unit="DefaultResiduals::update + DefaultInfo::update (gemv, symv, dot, norm_scaled, get_normq/get_normb)", inst="f64: data/iterate small integers |v|<=3, scalings powers of two (all products exact)",
-        bounds="n=1, m=1; 3 enumerated scaling combinations (d,e,c,tau powers of two); data and iterate symbolic small integers", oracle="every termination quantity (costs, residuals, gaps, ktratio) is bit-identical when computed from the internally scaled presentation and from the user's data with the unscaled iterate; cost formulas q'x+x'Px/2, -b'z-x'Px/2"),
-    "c01_scale_invariance_m2": dict(nofloat=True, stubs=True, tier="thorough", timeout=5400, mem_gb=32, unit="same", inst="same", bounds="n=1, m=2", oracle="same"),
+    "c01_scale_invariance_m1_a": dict(nofloat=True, stubs=True, timeout=2400, mem_gb=28, unit="DefaultResiduals::update + DefaultInfo::update (gemv, symv, dot, norm_scaled, get_normq/get_normb)", inst="f64: data/iterate small integers |v|<=3, scalings powers of two (all products exact)",
+        bounds="n=1, m=1; scalings d=2, e=1/2, c=4, tau=2 (concrete); data and iterate symbolic small integers", oracle="every termination quantity (costs, residuals, gaps, ktratio) is bit-identical when computed from the internally scaled presentation and from the user's data with the unscaled iterate; cost formulas q'x+x'Px/2, -b'z-x'Px/2"),
+    "c01_scale_invariance_m1_b": dict(nofloat=True, stubs=True, tier="thorough", timeout=3600, mem_gb=28, unit="same", inst="same", bounds="n=1, m=1; d=1/4, e=4, c=1/2, tau=1", oracle="same"),
+    "c01_scale_invariance_m1_c": dict(nofloat=True, stubs=True, tier="thorough", timeout=3600, mem_gb=28, unit="same", inst="same", bounds="n=1, m=1; d=4, e=2, c=1/4, tau=4", oracle="same"),
+    "c01_scale_invariance_m2_a": dict(nofloat=True, stubs=True, tier="thorough", timeout=5400, mem_gb=32, unit="same", inst="same", bounds="n=1, m=2; d=2, e=(1/2, 2), c=4, tau=2", oracle="same"),
     "c01_post_process_fp": dict(timeout=900, unit="DefaultSolution::post_process -> DefaultVariables::unscale", inst="GF(13)",
         bounds="n=m=2, 7 non-infeasible statuses", oracle="returned x,z,s are the unscaled iterate; objectives copied"),
     "c03_solution_post_process": dict(nofloat=True, timeout=900, unit="DefaultSolution::post_process / finalize, SolverStatus::is_infeasible, DefaultVariables::unscale", inst="f64 all bit patterns",
@@ -160,21 +162,21 @@ PROPS["C01"] = {
     "bounds_note": "verdict logic: every f64 bit pattern of every field and tolerance; unscale/post-process: n=m=2",
     "outside": "that the interior-point iteration reaches an iterate satisfying the test; rounding of residual norms; cone membership of the final iterate (see C07/C15); PSD cones; faer backend",
     "assumptions": ["check_termination is entered with status == Unsolved (loop invariant of Solver::solve, decided by the C04 loop harness)"],
-    "harnesses": _pick(["c01_verdict_solved", "c01_unscale", "c01_post_process_fp", "c03_solution_post_process", "c01_scale_invariance_m1", "c01_scale_invariance_m2"]),
+    "harnesses": _pick(["c01_verdict_solved", "c01_unscale", "c01_post_process_fp", "c03_solution_post_process", "c01_scale_invariance_m1_a", "c01_scale_invariance_m1_b", "c01_scale_invariance_m1_c", "c01_scale_invariance_m2_a"]),
 }
 PROPS["C02"] = {
     "feature": "c02",
     "bounds_note": "every f64 bit pattern; n=m=2 for the vectors",
     "outside": "that a certificate is found; numerical size of A'z; membership of z in K*",
     "assumptions": PROPS["C01"]["assumptions"],
-    "harnesses": _pick(["c02_verdict_infeasible", "c02_verdict_infeasible_dots", "c03_almost", "c03_solution_post_process", "c01_unscale", "c01_scale_invariance_m1"]),
+    "harnesses": _pick(["c02_verdict_infeasible", "c02_verdict_infeasible_dots", "c03_almost", "c03_solution_post_process", "c01_unscale", "c01_scale_invariance_m1_a"]),
 }
 PROPS["C03"] = {
     "feature": "c03",
     "bounds_note": "every f64 bit pattern; n=m=2 for the vectors",
     "outside": "agreement of the reported residual figures with an independent recomputation from the returned point (floating-point norms); chordal decomposition",
     "assumptions": [],
-    "harnesses": _pick(["c03_almost", "c03_rollback", "c03_solution_post_process", "c01_scale_invariance_m1"]),
+    "harnesses": _pick(["c03_almost", "c03_rollback", "c03_solution_post_process", "c01_scale_invariance_m1_a"]),
 }
 
 
@@ -275,6 +277,12 @@ _LOOP_UNIT = ("core::solver::Solver::solve (REAL generic main loop + IPSolverInt
               "save_scalars,save_prev_iterate,reset_to_prev_iterate,get_status,set_status}; all other components are stubs returning arbitrary values")
 _LOOP_OR = ("returns without panic/unreachable; status != Unsolved; iterations <= max_iter; passes <= max_iter+2; every check_termination entered with status Unsolved; "
             "after solve_time > time_limit is observed at a check at most one further pass, and only through the scaling-strategy switch")
+_COLLAPSE_KINDS = {"k0": "Zero(0)", "k1": "Zero(d)", "k2": "NN(0)", "k3": "NN(d)", "k4": "SOC(0)", "k5": "SOC(1)", "k6": "SOC(1+d)", "k7": "Exp", "k8": "Pow"}
+def _collapse(ks, tier):
+    return [dict(name="c05::c04_collapse_" + k, tier=tier, unit="SupportedConeT::new_collapsed", inst="usize cone dimensions", timeout=2400, mem_gb=20,
+                 bounds="3 cones: first %s, the other two over all 9x9 kinds {Zero(0),Zero(d),NN(0),NN(d),SOC(0),SOC(1),SOC(1+d),Exp,Pow} (enumerated: control flow), dimensions d symbolic in 1..2" % _COLLAPSE_KINDS[k],
+                 oracle="no panic; no empty cone / SOC(1) / adjacent NN pair in the output; every row keeps its cone kind and order (collapsed rows become nonnegative rows)") for k in ks]
+
 def _c04():
     H = []
     def loop(n, b, **kw):
@@ -285,8 +293,7 @@ def _c04():
     loop("c04_loop_sym_mi4", "max_iter<=4, symmetric cones", tier="thorough", )
     loop("c04_loop_asym_pd_mi3", "max_iter<=3, nonsymmetric, primal-dual scaling", tier="thorough")
     H.append(dict(name="verdict::c04_verdict_limits", **_H_VERDICT["c04_verdict_limits"]))
-    H.append(dict(name="c05::c04_collapse", unit="SupportedConeT::new_collapsed", inst="f64 cone parameters", bounds="4 cones of symbolic kind {Zero,NN,SOC,Exp,Pow} and symbolic dimension 0..2", timeout=2400, mem_gb=24,
-                  oracle="no panic; no empty cone / SOC(1) / adjacent NN pair in the output; every row keeps its cone kind and order (collapsed rows become nonnegative rows)"))
+    H.extend(_collapse(["k3", "k5"], "quick") + _collapse(["k0", "k1", "k2", "k4", "k6", "k7", "k8"], "thorough"))
     H.append(dict(name="c05::c04_dims_inconsistent_panics", should_panic=True, no_cover_ok=True, unit="default::solver::_check_dimensions", inst="usize", bounds="all dimensions <= 3, 2 symbolic cones", timeout=900,
                   oracle="every inconsistent combination panics (the point after the check is unreachable)"))
     H.append(dict(name="c05::c04_dims_consistent_accepted", unit="default::solver::_check_dimensions", inst="usize", bounds="all dimensions <= 3", timeout=900, oracle="consistent dimensions never panic"))
@@ -302,6 +309,7 @@ PROPS["C04"] = {
 }
 
 
+_MAPS_UNIT_S = "kkt_assembly::_kkt_assemble_colcounts / _kkt_assemble_fill, SOC csc_colcount_sparsecone / csc_fill_sparsecone, csc utilities, driven by the hook assemble_kkt_matrix_soc_store (LDLDataMap::new + assemble_kkt_matrix statement for statement, sparse-map list held in a stack store; validated natively by tv_kkt)"
 _MAPS_UNIT = "kkt_assembly::assemble_kkt_matrix (LDLDataMap::new, _kkt_assemble_colcounts, _kkt_assemble_fill, csc colcount_*/fill_* utilities, SOC sparse expansion fill); CompositeCone hook constructor; structure (patterns, layout, triangle) concrete, values symbolic"
 _MAPS_OR = ("K canonical of dimension n+m+p, all entries in the requested triangle; map.P / map.A entries at the recorded (transposed for tril) positions with the user's values; diag_full/diagP point at every diagonal "
             "position (structural zeros where P has none); Hsblocks hit the diagonal (diagonal cones) or the packed triangle in order (dense cones); u,v,D of SOC expansions hit the extra columns/rows; all index sets disjoint and covering K")
@@ -309,7 +317,7 @@ PROPS["C11"] = {
     "native_tests": ["tv_composite", "tv_kkt"],
     "feature": "c11",
     "bounds_note": "n=2; P patterns enumerated (empty, diagonal, missing diagonals, full); cone layouts enumerated ([Zero1,NN2], [NN1,SOC3], [Exp]); 4 enumerated A patterns per harness (dense, last-row only, empty first column, scattered); symbolic values; both triangles",
-    "outside": "POSITIONS of the sparse cone expansions (SOC dim > 4, GenPow: u,v / p,q,r and their diagonal) and every layout containing such a cone: their index maps live in a heap Vec of enums inside LDLDataMap, which CBMC does not constant-propagate; the harnesses (kept in c11.rs: c11_maps_soc5_*, c11_maps_soc2soc5_*, ...) did not finish in 40 min and are not registered - so the seeded change C11 (row offset of a sparse expansion after a dense block) is NOT caught; exp/pow Hs numerics; the real LDL engines",
+    "outside": "generalised power cone expansions (p,q,r and their diagonal); layouts beyond those listed; LDLDataMap::new's own push loop for sparse layouts (the hook assemble_kkt_matrix_soc_store repeats it with a stack-held list; native test tv_kkt compares hook and real assembly); exp/pow Hs numerics; the real LDL engines",
     "assumptions": ["CompositeCone built by the hook constructor new_without_type_counts (identical to CompositeCone::new except the printing-only HashMap); RandomState::new stubbed with fixed keys"],
     "harnesses": _mk("c11", [
         ("c11_maps_znn_p3_triu", dict(stubs=True, unit=_MAPS_UNIT, inst="f64 small ints (values only copied)", bounds="cones [Zero1,NN2], P full triu, A 3x2 nnz=3, triu", oracle=_MAPS_OR, timeout=1200, mem_gb=20)),
@@ -318,12 +326,17 @@ PROPS["C11"] = {
         ("c11_maps_znn_p4_tril", dict(stubs=True, rot=True, unit=_MAPS_UNIT, inst="f64", bounds="cones [Zero1,NN2], P only (0,1), tril", oracle=_MAPS_OR, timeout=1200, mem_gb=20)),
         ("c11_maps_nnsoc3_p1_triu", dict(stubs=True, unit=_MAPS_UNIT, inst="f64", bounds="cones [NN1,SOC3] (dense 3x3 block), diagonal P, triu", oracle=_MAPS_OR, timeout=1800, mem_gb=20)),
         ("c11_maps_nnsoc3_p5_tril", dict(stubs=True, rot=True, unit=_MAPS_UNIT, inst="f64", bounds="cones [NN1,SOC3], P only (1,1), tril", oracle=_MAPS_OR, timeout=1800, mem_gb=20)),
+        ("c11_maps_soc5_p0_triu", dict(stubs=True, unit=_MAPS_UNIT_S, inst="f64", bounds="cones [SOC5] (sparse expansion: 2 extra rows/columns), empty P, triu, one A pattern", oracle=_MAPS_OR + "; u, v columns and expansion diagonal at their recorded positions", timeout=2400, mem_gb=24)),
+        ("c11_maps_soc2soc5_p0_triu", dict(stubs=True, unit=_MAPS_UNIT_S, inst="f64", bounds="cones [SOC2 (dense 2x2 block), SOC5 (sparse expansion)], empty P, triu, one A pattern", oracle="same", timeout=3000, mem_gb=24)),
+        ("c11_maps_soc5_p2_tril", dict(stubs=True, tier="thorough", unit=_MAPS_UNIT_S, inst="f64", bounds="cones [SOC5], P missing (1,1), tril", oracle="same", timeout=3600, mem_gb=24)),
+        ("c11_maps_nnsoc5z_p1_tril", dict(stubs=True, tier="thorough", unit=_MAPS_UNIT_S, inst="f64", bounds="cones [NN1,SOC5,Zero1], diagonal P, tril", oracle="same", timeout=3600, mem_gb=24)),
+        ("c11_maps_expsoc5_p0_tril", dict(stubs=True, tier="thorough", unit=_MAPS_UNIT_S, inst="f64", bounds="cones [Exp (dense 3x3 block), SOC5], empty P, tril", oracle="same", timeout=3600, mem_gb=24)),
         ("c11_maps_exp_p4_triu", dict(stubs=True, rot=True, unit=_MAPS_UNIT, inst="f64", bounds="cones [Exp] dense block, P only (0,1), triu", oracle=_MAPS_OR, timeout=1800, mem_gb=20)),
         ("c11_kkt_sync_nn2_reg", dict(stubs=True, nofloat=True, unit="DirectLDLKKTSolver::{update_P, update_A, update -> regularize_and_refactor, _update_values, _fill_signs} against a mirror LDL engine", inst="f64 small ints", bounds="n=2, cones [NN2], static regularisation on", timeout=2400, mem_gb=24,
             oracle="at refactor the engine's copy == the KKT matrix (every P/A/Hs/diagonal write reached it); afterwards KKT holds the new P,A and an UNregularised diagonal; engine got +eps/-eps by sign; sign vector")),
         ("c11_kkt_sync_zero1_nn1_noreg", dict(stubs=True, nofloat=True, rot=True, unit="same", inst="f64", bounds="cones [Zero1,NN1], regularisation off", timeout=2400, mem_gb=24, oracle="same, no shift")),
     ]) + [dict(name="c13::c13_soc3_hs_block_p7", unit="SecondOrderCone::get_Hs vs mul_Hs", inst="GF(7)", bounds="dim 3, all normalised w, eta, x", oracle="unpacked KKT block == operator applied when recovering the slack step", timeout=1500),
-          dict(name="c13::c13_soc5_update_scaling_sparse_p31", unit="SecondOrderCone::update_scaling / sparse_data / get_Hs / mul_Hs", inst="GF(31)", bounds="dim 5", oracle="eta^2 (D + uu' - vv') == mul_Hs", timeout=3600, mem_gb=28)],
+          dict(name="c13::c13_soc5_update_scaling_sparse_p7", unit="SecondOrderCone::update_scaling / sparse_data / get_Hs / mul_Hs", inst="GF(7)", bounds="dim 5 (two symbolic tail entries)", oracle="eta^2 (D + uu' - vv') == mul_Hs", timeout=2400, mem_gb=24)],
 }
 PROPS["C13"] = {
     "feature": "c13",
@@ -345,7 +358,8 @@ PROPS["C13"] = {
         ("c13_soc3_hs_block", dict(tier="thorough", unit="same", inst="GF(17)", bounds="dim 3", oracle="same", timeout=3600)),
         ("c13_soc3_update_scaling", dict(unit="SecondOrderCone::update_scaling", inst="GF(13)", bounds="dim 3, all s,z with square nonzero residuals", oracle="w normalised; eta^4 = res(s)/res(z)", timeout=2400, mem_gb=20)),
         ("c13_soc5_update_scaling_sparse", dict(tier="thorough", unit="SecondOrderCone::update_scaling incl. sparse_data (u,v,d)", inst="GF(13)", bounds="dim 5 (two symbolic tail entries, the others zero)", oracle="as above + eta^2(D+uu'-vv') == mul_Hs; D block = eta^2 diag(d,1,..)", timeout=3000, mem_gb=24)),
-        ("c13_soc5_update_scaling_sparse_p31", dict(unit="same", inst="GF(31)", bounds="dim 5", oracle="same", timeout=3600, mem_gb=28)),
+        ("c13_soc5_update_scaling_sparse_p31", dict(tier="thorough", unit="same", inst="GF(31)", bounds="dim 5", oracle="same", timeout=7200, mem_gb=28)),
+        ("c13_soc5_update_scaling_sparse_p7", dict(unit="same", inst="GF(7)", bounds="dim 5 (two symbolic tail entries, the others zero)", oracle="same", timeout=2400, mem_gb=24)),
         ("c13_soc3_jordan_p7", dict(unit="SecondOrderCone::circ_op/inv_circ_op/affine_ds/combined_ds_shift (_combined_ds_shift_symmetric)", inst="GF(7)", bounds="dim 3", oracle="arrow product; inverse; lambda o lambda; W^-1 ds o W dz - sigma mu e", timeout=1800)),
         ("c13_soc3_jordan", dict(tier="thorough", unit="SecondOrderCone::circ_op/inv_circ_op/affine_ds/combined_ds_shift (_combined_ds_shift_symmetric)", inst="GF(13)", bounds="dim 3", oracle="arrow product; inverse; lambda o lambda; W^-1 ds o W dz - sigma mu e", timeout=3600)),
         ("c13_nn_scaling", dict(unit="NonnegativeCone::update_scaling/get_Hs/mul_Hs/mul_W/mul_Winv/affine_ds/Ds_from_Dz_offset", inst="GF(13)", bounds="dim 2", oracle="Hs z = s; lambda^2 = s z; Winv W = I; offset = ds/z", timeout=1200)),
@@ -430,13 +444,15 @@ PROPS["C10"] = {
 
 PROPS["C05"] = {
     "feature": "c05",
-    "bounds_note": "cone lists of 3-5 cones with symbolic kinds/dimensions; P: all 16 2x2 patterns and 6 3x3 patterns",
+    "bounds_note": "cone lists of 3-5 cones with enumerated kinds and symbolic dimensions; P: all 16 2x2 patterns and 6 3x3 patterns",
     "outside": "every other equivalence of C05 (row/variable permutations, objective scaling, presolve/equilibration toggles, LDL backends, thread counts, concurrent solver instances, bit-for-bit repeatability) relates two end-to-end floating-point runs or concerns concurrency: not expressible as a bounded symbolic query over this code - NOT decided. Only the two normalisations that make equivalent inputs *identical internal problems* are decided here",
     "assumptions": [],
     "harnesses": [
-        dict(name="c05::c05_nn_split_merge", unit="SupportedConeT::new_collapsed", inst="f64 cone parameters", bounds="NN(a),filler,NN(b) between two symbolic cones vs NN(a+b); a,b <= 3", timeout=2400, mem_gb=24,
+        dict(name="c05::c05_nn_split_merge_nn0", unit="SupportedConeT::new_collapsed", inst="usize cone dimensions", bounds="[head, NN(a), NN(0), NN(b), tail] vs [head, NN(a+b), tail]; head/tail over {Zero(d),NN(d),SOC(1+d),Exp} (enumerated), a,b <= 3 and d in 1..2 symbolic", timeout=2400, mem_gb=20,
              oracle="identical collapsed cone lists (=> identical internal problem); SOC(1) == nonnegative row"),
-        dict(name="c05::c04_collapse", unit="SupportedConeT::new_collapsed", inst="f64", bounds="4 symbolic cones", timeout=2400, mem_gb=24, oracle="row kinds/order preserved; canonical output"),
+        dict(name="c05::c05_nn_split_merge_zero0", tier="thorough", unit="same", inst="same", bounds="filler Zero(0)", timeout=2400, mem_gb=20, oracle="same"),
+        dict(name="c05::c05_nn_split_merge_soc0", tier="thorough", unit="same", inst="same", bounds="filler SOC(0)", timeout=2400, mem_gb=20, oracle="same"),
+    ] + _collapse(["k3"], "quick") + [
         dict(name="c16::c16_to_triu_2x2_all", unit="CscMatrix::to_triu / is_triu (DefaultProblemData::new converts a full P with to_triu iff !is_triu)", inst="i32", bounds="all 16 patterns of a 2x2 matrix, symbolic values", timeout=1500,
              oracle="to_triu(full) is the canonical upper triangle; a triu input is returned unchanged"),
         dict(name="c16::c16_to_triu_3x3_some", tier="thorough", unit="same", inst="i32", bounds="6 representative 3x3 patterns", timeout=1500, oracle="same"),
@@ -453,10 +469,14 @@ PROPS["C14"] = {
     "harnesses": _mk("c14", [
         ("c14_exp_grad_is_derivative_of_dual_barrier", dict(unit="ExponentialCone::barrier_dual / update_dual_grad_H", inst="Jet<GF(13)>", bounds="all z (z1,z3 != 0), symbolic direction index", oracle="d f*(z)/dz_j == grad[j]", timeout=2400, mem_gb=20)),
         ("c14_exp_hessian_is_derivative_of_grad", dict(unit="ExponentialCone::update_dual_grad_H", inst="Jet<GF(13)>", bounds="all z, symbolic j", oracle="d grad[i]/dz_j == H[i][j] for all i", timeout=2400, mem_gb=20)),
-        ("c14_exp_higher_correction_is_third_derivative", dict(unit="ExponentialCone::higher_correction, DenseMatrixSym3::cholesky_3x3_explicit_{factor,solve}", inst="Jet<GF(13)>", bounds="all z, u, v", oracle="eta == -1/2 (d/dt H(z+tv)) u with H u = ds", timeout=3600, mem_gb=28)),
+        ("c14_exp_higher_correction_is_third_derivative_p11", dict(tier="thorough", unit="same", inst="Jet<GF(11)>", bounds="same", oracle="same", timeout=2400, mem_gb=24)),
+        ("c14_pow_higher_correction_is_third_derivative_p5", dict(tier="thorough", unit="same", inst="Jet<GF(5)>", bounds="same", oracle="same", timeout=2400, mem_gb=24)),
+        ("c14_exp_higher_correction_is_third_derivative_p7", dict(unit="ExponentialCone::higher_correction, DenseMatrixSym3::cholesky_3x3_explicit_{factor,solve}", inst="Jet<GF(7)>", bounds="all z, u, v with nonzero leading minors of H", oracle="eta == -1/2 (d/dt H(z+tv)) u with H u = ds", timeout=2400, mem_gb=24)),
+        ("c14_exp_higher_correction_is_third_derivative", dict(tier="thorough", unit="same", inst="Jet<GF(13)>", bounds="same", oracle="same", timeout=7200, mem_gb=28)),
         ("c14_pow_grad_is_derivative_of_dual_barrier", dict(unit="PowerCone::barrier_dual / update_dual_grad_H", inst="Jet<GF(13)>", bounds="all z != 0, all alpha", oracle="d f*(z)/dz_j == grad[j]", timeout=2400, mem_gb=20)),
         ("c14_pow_hessian_is_derivative_of_grad", dict(unit="PowerCone::update_dual_grad_H", inst="Jet<GF(13)>", bounds="all z, alpha, j", oracle="d grad[i]/dz_j == H[i][j]", timeout=2400, mem_gb=20)),
-        ("c14_pow_higher_correction_is_third_derivative", dict(tier="thorough", unit="PowerCone::higher_correction", inst="Jet<GF(13)>", bounds="all z, u, v, alpha", oracle="eta == -1/2 (d/dt H(z+tv)) u", timeout=3600, mem_gb=28)),
+        ("c14_pow_higher_correction_is_third_derivative_p7", dict(tier="thorough", unit="PowerCone::higher_correction", inst="Jet<GF(7)>", bounds="all z, u, v, alpha", oracle="eta == -1/2 (d/dt H(z+tv)) u", timeout=3600, mem_gb=28)),
+        ("c14_pow_higher_correction_is_third_derivative", dict(tier="thorough", unit="PowerCone::higher_correction", inst="Jet<GF(13)>", bounds="all z, u, v, alpha", oracle="eta == -1/2 (d/dt H(z+tv)) u", timeout=7200, mem_gb=28)),
         ("c14_dual_scaling_is_mu_times_hessian", dict(unit="Nonsymmetric3DConeUtils::use_dual_scaling, ExponentialCone::get_Hs / mul_Hs", inst="GF(13)", bounds="all H, mu, x", oracle="Hs == mu H; get_Hs / mul_Hs expose Hs", timeout=1200)),
     ]),
 }
